@@ -166,7 +166,7 @@ func main() {
 			"A leaf is one call under one (operand kind × aliasing pattern {fresh, out==op_i, op_i==op_j, all equal — those the dynamic types permit} × " +
 			"output history {fresh exact, larger degree, larger level, same shape holding another result, smaller level} × receiver history " +
 			"{new, scratch buffers filled with 2^64-1, scratch buffers filled with a valid-looking pattern, after each other method of the table (quick: its first operand kind; thorough: every kind)}); " +
-			"full product; thorough adds, for the plain call, every ordered pair of previous methods. Each leaf also runs the reference execution (new receiver, distinct identical operand copies, fresh zeroed output) under the same PRNG seed. " +
+			"full product; thorough adds every ordered pair of previous methods for calls deviating in at most one of (aliasing, output history); receivers obtained by ShallowCopy of a new / of a used receiver are further histories. Each leaf also runs the reference execution (new receiver, distinct identical operand copies, fresh zeroed output) under the same PRNG seed. " +
 			"Oracles: (a) identity snapshot (all words, metadata, big-number words, slice headers) of every argument except the designated output equal before/after; " +
 			"(b,c) canonical result bytes equal to the reference, or an error for aliased / unsuitable-output calls. " +
 			"A state is (scenario, kind, alias, output history, receiver history); distinct_nontrivial counts distinct (scenario, kind, result) classes.",
@@ -184,7 +184,7 @@ func main() {
 		Expect: func(tier string) []string {
 			e := []string{"method-table=complete", "alias=fresh", "alias=out==in", "alias=in==in", "alias=all-equal",
 				"outshape=exact", "outshape=dirty-words", "outshape=dirty-meta", "outshape=larger-degree", "outshape=larger-level", "outshape=smaller-level",
-				"history=new", "history=residue", "history=after-call"}
+				"history=new", "history=residue", "history=after-call", "history=shallow-copy"}
 			for _, t := range ot.Targets() {
 				if len(envsFor(t, tier)) == 0 {
 					continue
